@@ -414,7 +414,9 @@ func (e *Env) index(xv, iv Val) Val {
 	switch u := typeUnder(xv.GT).(type) {
 	case *types.Slice:
 		i := e.asIdx(iv)
-		return Val{T: g.elemRead(e.state(), u.Elem(), xv.T, i), S: g.sortOf(u.Elem()), GT: u.Elem()}
+		r := Val{T: g.elemRead(e.state(), u.Elem(), xv.T, i), S: g.sortOf(u.Elem()), GT: u.Elem()}
+		e.heapTypeFact(r)
+		return r
 	case *types.Basic:
 		if u.Info()&types.IsString != 0 {
 			return Val{T: fmt.Sprintf("(sat %s %s)", xv.T, e.asIdx(iv)), S: g.isort(8), GT: types.Typ[types.Uint8]}
@@ -509,7 +511,9 @@ func (e *Env) sel(n *ESel) Val {
 		for i := 0; i < st.NumFields(); i++ {
 			if st.Field(i).Name() == n.Name {
 				fam, sort, ft := g.fieldFam(p.Elem(), i)
-				return Val{T: fmt.Sprintf("(select %s %s)", g.heapGet(e.state(), fam, sort), xv.T), S: g.sortOf(ft), GT: ft}
+				r := Val{T: fmt.Sprintf("(select %s %s)", g.heapGet(e.state(), fam, sort), xv.T), S: g.sortOf(ft), GT: ft}
+				e.heapTypeFact(r)
+				return r
 			}
 		}
 		// promoted through embedded struct (one level)
@@ -733,7 +737,13 @@ func (e *Env) call(n *ECall) Val {
 		default:
 			ref = v.T
 		}
-		a0 := g.heapGet(g.init, "$alloc", "Int")
+		// allocated after the "old" state of this environment: function entry for the function's own contract,
+		// the call-time state for a callee contract applied at a call site
+		base := g.init
+		if e.old != nil {
+			base = e.old
+		}
+		a0 := g.heapGet(base, "$alloc", "Int")
 		return Val{T: fmt.Sprintf("(>= %s %s)", ref, a0), S: "Bool", GT: types.Typ[types.Bool]}
 	case "implements":
 		// implements(x, I): the dynamic type of interface value x implements interface I
@@ -830,6 +840,19 @@ func (e *Env) call(n *ECall) Val {
 	}
 	e.fail("unknown function %s in contract", fname)
 	return Val{}
+}
+
+// heapTypeFact: a value read from the heap in a contract expression has the type invariant of its Go type
+// (integer range in int mode, slice header well-formedness). Only for closed terms (no quantifier-bound variable).
+func (e *Env) heapTypeFact(v Val) {
+	if strings.Contains(v.T, "q!") || v.GT == nil {
+		return
+	}
+	f := e.g.typeFacts(v, v.GT)
+	if f != "true" && !e.g.declared["tf:"+v.T] {
+		e.g.declared["tf:"+v.T] = true
+		e.g.assume(f)
+	}
 }
 
 // findAnchor: the first slice-valued expression X such that X[v] occurs in body and X does not mention v.
